@@ -343,15 +343,53 @@ class Analyzer:
       self.sites.append(Site(self.qualname, s.lineno, ast.unparse(s), False,
                              'rebinding closure / module state makes the round depend on hidden state'))
 
-  def _maybe_container(self, name):
-    """x += ... is in place for lists/dicts/sets/arrays.  A name that was only ever
-    bound to numbers (constants, arithmetic) is not a container."""
+  def _numeric_expr(self, e, seen):
+    """Syntactically a number: constants, len(), .size / .shape[k] / .ndim, int()/min()/max()/abs() of numbers,
+    arithmetic of numbers, names only ever bound to such expressions."""
+    if isinstance(e, ast.Constant):
+      return isinstance(e.value, (int, float)) and not isinstance(e.value, bool) or isinstance(e.value, bool)
+    if isinstance(e, ast.UnaryOp):
+      return self._numeric_expr(e.operand, seen)
+    if isinstance(e, ast.BinOp) and isinstance(e.op, (ast.Add, ast.Sub, ast.Mult, ast.FloorDiv, ast.Mod, ast.Pow, ast.Div)):
+      return self._numeric_expr(e.left, seen) and self._numeric_expr(e.right, seen)
+    if isinstance(e, ast.Call) and isinstance(e.func, ast.Name) and e.func.id == 'len':
+      return True
+    if isinstance(e, ast.Call) and isinstance(e.func, ast.Name) and e.func.id in ('int', 'min', 'max', 'abs', 'round') and \
+        e.args and not e.keywords:
+      return all(self._numeric_expr(a, seen) for a in e.args)
+    if isinstance(e, ast.Attribute) and e.attr in ('size', 'ndim'):
+      return True
+    if isinstance(e, ast.Subscript) and isinstance(e.value, ast.Attribute) and e.value.attr == 'shape':
+      return True
+    if isinstance(e, ast.Name):
+      return self._numeric_name(e.id, seen)
+    return False
+
+  def _numeric_name(self, name, seen):
+    if name in seen:
+      return True
+    if name in self.params:
+      return False
+    seen = seen | {name}
+    binds = []
     for n in self._walk_own(self.fdef):
       if isinstance(n, ast.Assign) and any(isinstance(t, ast.Name) and t.id == name for t in n.targets):
-        if isinstance(n.value, ast.Constant) and isinstance(n.value.value, (int, float)):
-          continue
-        return True
-    return name in self.params or True
+        binds.append(n.value)
+      elif isinstance(n, (ast.AugAssign, ast.AnnAssign)) and isinstance(n.target, ast.Name) and n.target.id == name and \
+          n.value is not None:
+        binds.append(n.value)
+      elif isinstance(n, (ast.For, ast.comprehension)) and any(
+          isinstance(x, ast.Name) and x.id == name for x in ast.walk(n.target)):
+        return False
+      elif isinstance(n, ast.Assign) and any(isinstance(x, ast.Name) and x.id == name and isinstance(x.ctx, ast.Store)
+                                             for t in n.targets if isinstance(t, (ast.Tuple, ast.List)) for x in ast.walk(t)):
+        return False     # bound by unpacking
+    return bool(binds) and all(self._numeric_expr(b, seen) for b in binds)
+
+  def _maybe_container(self, name):
+    """x += ... is in place for lists/dicts/sets/arrays.  A name that was only ever
+    bound to numbers (constants, lengths, sizes, arithmetic of such) is not a container."""
+    return not self._numeric_name(name, frozenset())
 
   def block(self, stmts):
     for s in stmts:
